@@ -705,6 +705,8 @@ func props() []rp.Prop {
 	return []rp.Prop{
 		rp.P[rtCase]{Name: "roundtrip", Checks: ev.Pick(40000, 8000000) / ev.Shards(), Gen: genRT, Sweep: sweepTypesZones, Check: checkRT},
 		rp.P[dispCase]{Name: "dispatch", Sweep: sweepDisp, Check: checkDisp},
+		rp.P[noValueCase]{Name: "no-value-date-in-a-location", Sweep: sweepNoValue, Check: checkNoValue},
+		rp.P[sameNameCase]{Name: "same-named-process-zones", Sweep: sweepSameName, Check: checkSameName},
 		rp.P[batchCase]{Name: "batches", Checks: ev.Pick(6000, 600000) / ev.Shards(), Gen: genBatch, Sweep: sweepBatch, Check: checkBatch},
 		rp.P[blankCase]{Name: "blank-fields", Checks: ev.Pick(20000, 2000000) / ev.Shards(), Gen: genBlank, Sweep: sweepBlank, Check: checkBlank},
 		rp.P[coldCase]{Name: "canonical", Sweep: func(yield func(coldCase) bool) {
